@@ -86,44 +86,50 @@ def audit_dir(d):
     return probs
 
 
-def rocq_obligations(prop, theorems, d, logical):
-    """compile Props_<prop>.v, parse Print Assumptions; returns (n_obligations, n_discharged, problems, axioms)"""
-    fn = 'Props_%s.v' % prop
+def rocq_obligations(prop, theorems, d, logical, files=None):
+    """compile the Props files of <prop> (default Props_<prop>.v; several files are compiled in parallel), parse every
+    Print Assumptions; returns (n_obligations, n_discharged, problems, axioms)"""
+    from concurrent.futures import ThreadPoolExecutor
+    files = list(files or ['Props_%s.v' % prop])
     probs = []
-    if not os.path.exists(os.path.join(d, fn)):
-        return len(theorems), 0, ['missing ' + fn], {}
-    r = C.sh('cd %s && timeout 600 coqc %s %s' % (d, logical, fn))
-    if r.returncode != 0:
-        m = re.search(r'File "\./%s", line (\d+)' % re.escape(fn), r.stdout)
-        which = '?'
-        if m:
-            upto = open(os.path.join(d, fn)).read().splitlines()[:int(m.group(1))]
-            names = re.findall(r'Theorem\s+(\w+)', '\n'.join(upto))
-            which = names[-1] if names else '?'
-        return len(theorems), 0, ['theorem %s in %s no longer checks: %s' % (which, fn, r.stdout[-600:])], {}
-    src = strip_comments(open(os.path.join(d, fn)).read())
-    declared = re.findall(r'Theorem\s+(\w+)', src)
-    printed = re.findall(r'Print Assumptions\s+(\w+)', src)
+    for fn in files:
+        if not os.path.exists(os.path.join(d, fn)):
+            return len(theorems), 0, ['missing ' + fn], {}
+    with ThreadPoolExecutor(max_workers=len(files)) as ex:
+        runs = list(ex.map(lambda fn: C.sh('cd %s && timeout 900 coqc %s %s' % (d, logical, fn)), files))
+    declared, printed, axioms = [], [], {}
+    for fn, r in zip(files, runs):
+        if r.returncode != 0:
+            m = re.search(r'File "\./%s", line (\d+)' % re.escape(fn), r.stdout)
+            which = '?'
+            if m:
+                upto = open(os.path.join(d, fn)).read().splitlines()[:int(m.group(1))]
+                names = re.findall(r'Theorem\s+(\w+)', '\n'.join(upto))
+                which = names[-1] if names else '?'
+            return len(theorems), 0, ['theorem %s in %s no longer checks: %s' % (which, fn, r.stdout[-600:])], {}
+        src = strip_comments(open(os.path.join(d, fn)).read())
+        declared += re.findall(r'Theorem\s+(\w+)', src)
+        pr = re.findall(r'Print Assumptions\s+(\w+)', src)
+        printed += pr
+        # split coqc output into per-Print blocks
+        blocks = re.split(r'(?=Closed under the global context|Axioms:)', r.stdout)
+        blocks = [b for b in blocks if b.startswith('Closed') or b.startswith('Axioms:')]
+        if len(blocks) != len(pr):
+            probs.append('could not match Print Assumptions output of %s (%d blocks, %d commands)' % (fn, len(blocks), len(pr)))
+        for name, b in zip(pr, blocks):
+            if b.startswith('Closed'):
+                axioms[name] = []
+            else:
+                axs = re.findall(r'^(\S+)\s*:', b[len('Axioms:'):], re.M)
+                axioms[name] = axs
+                for a in axs:
+                    if a not in ALLOWED_AXIOMS:
+                        probs.append('theorem %s depends on axiom %s' % (name, a))
     for t in theorems:
         if t not in declared:
-            probs.append('theorem %s not stated in %s' % (t, fn))
+            probs.append('theorem %s not stated in %s' % (t, ' / '.join(files)))
         if t not in printed:
             probs.append('no Print Assumptions for %s' % t)
-    # split coqc output into per-Print blocks
-    blocks = re.split(r'(?=Closed under the global context|Axioms:)', r.stdout)
-    blocks = [b for b in blocks if b.startswith('Closed') or b.startswith('Axioms:')]
-    axioms = {}
-    if len(blocks) != len(printed):
-        probs.append('could not match Print Assumptions output (%d blocks, %d commands)' % (len(blocks), len(printed)))
-    for name, b in zip(printed, blocks):
-        if b.startswith('Closed'):
-            axioms[name] = []
-        else:
-            axs = re.findall(r'^(\S+)\s*:', b[len('Axioms:'):], re.M)
-            axioms[name] = axs
-            for a in axs:
-                if a not in ALLOWED_AXIOMS:
-                    probs.append('theorem %s depends on axiom %s' % (name, a))
     discharged = sum(1 for t in theorems if t in declared and t in axioms and not any(t in p for p in probs))
     return len(theorems), discharged, probs, axioms
 
@@ -171,7 +177,7 @@ def main():
         except C.BuildError as e:
             rocq_probs.append(str(e)[-1500:])
     rocq_probs += audit([core] + ([coqdir] if coqdir != core else []))
-    n_obl, n_dis, probs, axioms = rocq_obligations(prop, mod.THEOREMS, coqdir, logical)
+    n_obl, n_dis, probs, axioms = rocq_obligations(prop, mod.THEOREMS, coqdir, logical, getattr(mod, 'PROPS_FILES', None))
     rocq_probs += probs
     # Python half (the real /repo Python layer under pyshim against the value-level specifications of cpy/coq)
     PH = None
